@@ -11,10 +11,11 @@ RULE = ("sparse WAV files (header bytes + a hole of up to 4 GiB - 77 zero bytes)
         "1-byte one; every over-limit set must be refused (and is refused at once: nothing is copied); thorough tier also packs "
         "the sets that end exactly at 2^32-1 (4 GiB really written, then deleted) and demands success with the exact length; "
         "names of 8 (accepted, full reference comparison) and 9..16 characters (refused), alone and inside larger sets")
-PROVED = ("see lean/Op2Proofs/Props/C20_Clm.lean: PrepareIndex refuses exactly when some member's offset + length exceeds 2^32-1 "
-          "(both directions); hence create = err whenever the running total crosses the limit, and every archive create returns is "
-          "at most 2^32-1 bytes long with index fields equal to the true (unwrapped) offsets and lengths; a name longer than 8 "
-          "characters always gives err; 8 characters pass the check (non-vacuity both ways)")
+PROVED = ("C20_clm_prepareIndex_exact: PrepareIndex refuses iff the index is non-empty and its end exceeds 2^32-1; "
+          "C20_clm_offset_overflow_refused: create = err whenever intake succeeds and header+index+announced data exceed the limit; "
+          "C20_clm_fits_accepted (converse) with the 2^32-1 / 2^32 boundary example; C20_clm_no_wrapped_fields: every archive create "
+          "returns is <= 2^32-1 bytes and its stored offsets are the true running sums; C20_clm_long_name_refused with 8/9-character "
+          "examples; a sparse 4 GiB set evaluated in the kernel; bridging lemmas for UINT32_MAX and the name limit 8")
 PARTIAL = "the refusal leaves a partially written destination file (header only); the statement demands untouched destinations for volumes only"
 TRUSTED = ["sparse files read back as zero bytes"]
 ASSUMPTIONS = []
